@@ -7,7 +7,7 @@ from harness import tlc
 C09_INV = ["TypeOK", "UniqueIds", "NoCrossTalk", "IdBound", "NoIdExhaustion", "Accounting", "Recycled"]
 C10_INV = ["FailedOnce", "AllFailed"]
 C10_PROPS = ["NothingAfterDeath", "SendRefusedWhenDead"]
-WITNESSES = {"C09": ["Witness_LateResponse", "Witness_Grow", "Witness_SessionOpen"],
+WITNESSES = {"C09": ["Witness_LateResponse", "Witness_Grow", "Witness_SessionOpen", "Witness_Busy"],
              "C10": ["Witness_ErroredTwoAtOnce", "Witness_Refused", "Witness_SessionFailed"]}
 
 C10_VARS = {"errs", "cperr", "defunct", "closed"}
@@ -44,7 +44,8 @@ def close_fails_sessions(rc):
 
 def run(ctx, pid):
     from harness.replay import connection as rc
-    consts = {"MaxId": 2, "InitFree": 1, "Reqs": {1, 2, 3}, "CPReqs": {3}, "MaxPages": 2, "CloseFailsSessions": True}
+    consts = {"MaxId": 2, "InitFree": 1, "Reqs": {1, 2, 3}, "CPReqs": {3}, "MaxPages": 2, "CloseFailsSessions": True,
+              "Busy": not ctx.quick}
     inv = C09_INV + C10_INV
     # the intended design (close() fails paging sessions too) must satisfy the properties
     icfg = tlc.write_cfg(os.path.join(ctx.scratch, "conn_intended.cfg"), constants=consts, invariants=inv,
@@ -89,14 +90,14 @@ def run(ctx, pid):
         raise tlc.MachineryError("actions never taken in the exhaustive model: %s" % zero)
     ctx.note("coverage_zero_actions", zero)
     for w in WITNESSES[pid]:
-        wcfg = tlc.write_cfg(os.path.join(ctx.scratch, w + ".cfg"), constants=consts, invariants=[w], deadlock=False)
+        wcfg = tlc.write_cfg(os.path.join(ctx.scratch, w + ".cfg"), constants=dict(consts, Busy=True), invariants=[w], deadlock=False)
         wres = tlc.check_model("Connection", wcfg, ctx.scratch, timeout=600)
         if wres.invariant != w:
             raise tlc.MachineryError("vacuity witness %s not reachable" % w)
     ctx.note("vacuity_witnesses_reached", len(WITNESSES[pid]))
 
     if not ctx.quick:
-        big = {"MaxId": 3, "InitFree": 2, "Reqs": {1, 2, 3, 4}, "CPReqs": {3, 4}, "MaxPages": 2, "CloseFailsSessions": intended}
+        big = {"MaxId": 3, "InitFree": 2, "Reqs": {1, 2, 3, 4}, "CPReqs": {3, 4}, "MaxPages": 2, "CloseFailsSessions": intended, "Busy": True}
         bcfg = tlc.write_cfg(os.path.join(ctx.scratch, "conn_big.cfg"), constants=big, invariants=inv,
                              properties=C10_PROPS, deadlock=False)
         bres = tlc.check_model("Connection", bcfg, ctx.scratch, timeout=3000)
@@ -109,36 +110,55 @@ def run(ctx, pid):
                               signature="spec:%s" % bres.invariant)
             return
 
-    # ---- spec -> code: replay walks covering every edge of the exhaustive graph
-    walks = tlc.graph_walks(nodes, edges, init, rng=ctx.rng, max_walks=100000, max_len=30,
-                            random_walks=200 if ctx.quick else 20000)
-    covered = set()
-    for w in walks:
-        covered.update(zip(w, w[1:]))
-    ctx.note("graph_edges", len(edges))
-    ctx.note("graph_edges_replayed", len(covered))
-    ctx.note("exhaustive", len(covered) == len(set((s, d) for s, d, _ in edges)))
+    graphs = [(consts, nodes, edges, init)]
+    if ctx.quick:
+        # the unwritable-socket dimension on a smaller model (2 requests), every edge replayed as well
+        sconsts = dict(consts, Reqs={1, 2}, CPReqs=set(), Busy=True)
+        scfg = tlc.write_cfg(os.path.join(ctx.scratch, "conn_busy.cfg"), constants=sconsts, invariants=inv,
+                             properties=C10_PROPS, deadlock=False)
+        sres, snodes, sedges, sinit = tlc.state_graph("Connection", scfg, ctx.scratch, timeout=900)
+        ctx.add_tlc(sres, "exhaustive, 2 requests, unwritable socket enabled")
+        if sres.violation:
+            own = "C09" if sres.invariant in C09_INV else "C10"
+            if own == pid:
+                ctx.violation("TLC: %s violated on Connection.tla (busy model)" % sres.invariant,
+                              replay={"trace": [dict(s.get("act", {})) for _, s in sres.trace()]}, signature="spec:%s" % sres.invariant)
+            return
+        graphs.append((sconsts, snodes, sedges, sinit))
+    # ---- spec -> code: replay walks covering every edge of the exhaustive graph(s)
     replayed = 0
-    for w in walks:
-        states = [nodes[n] for n in w]
-        # handlers of some requests raise when errored (the connection must isolate that); vary the set per walk
-        raisers = [(), (1,), (2, 3), (1, 2, 3)][replayed % 4]
-        d = rc.replay(consts, states, raisers)
-        replayed += 1
-        acts = [dict(s["act"]) for s in states[1:]]
-        names = [a["name"] for a in acts]
-        if any(n in ("Timeout", "RespondLate", "SocketError", "Close", "FirstPage", "Page") for n in names):
-            ctx.nontrivial(tuple((a["name"], a["r"], a["id"]) for a in acts))
-        if replayed % 500 == 1:
-            ctx.sample({"direction": "spec->code", "actions": acts})
-        if d:
-            step = d["step"]
-            dead_before = step > 0 and (states[step - 1]["defunct"] or states[step - 1]["closed"])
-            if owner_of(d, dead_before) == pid:
-                ctx.violation("replay diverges at step %d (%s): %s" % (step, d["action"], d["diff"]),
-                              replay={"constants": consts, "actions": acts[:step], "divergence": d, "raisers": list(raisers)},
-                              signature="replay:%s:%s" % (d["action"]["name"] if isinstance(d["action"], dict) else d["action"],
-                                                          ",".join(sorted(d["diff"]))))
+    total_edges = total_covered = 0
+    for gconsts, gnodes, gedges, ginit in graphs:
+        walks = tlc.graph_walks(gnodes, gedges, ginit, rng=ctx.rng, max_walks=100000, max_len=30,
+                                random_walks=100 if ctx.quick else 10000)
+        covered = set()
+        for w in walks:
+            covered.update(zip(w, w[1:]))
+        total_edges += len(set((s, d) for s, d, _ in gedges))
+        total_covered += len(covered)
+        for w in walks:
+            states = [gnodes[n] for n in w]
+            # handlers of some requests raise when errored (the connection must isolate that); vary the set per walk
+            raisers = [(), (1,), (2, 3), (1, 2, 3)][replayed % 4]
+            d = rc.replay(gconsts, states, raisers)
+            replayed += 1
+            acts = [dict(s["act"]) for s in states[1:]]
+            names = [a["name"] for a in acts]
+            if any(n in ("Timeout", "RespondLate", "SocketError", "Close", "FirstPage", "Page", "SocketBusy") for n in names):
+                ctx.nontrivial(tuple((a["name"], a["r"], a["id"]) for a in acts))
+            if replayed % 500 == 1:
+                ctx.sample({"direction": "spec->code", "actions": acts})
+            if d:
+                step = d["step"]
+                dead_before = step > 0 and (states[step - 1]["defunct"] or states[step - 1]["closed"])
+                if owner_of(d, dead_before) == pid:
+                    ctx.violation("replay diverges at step %d (%s): %s" % (step, d["action"], d["diff"]),
+                                  replay={"constants": gconsts, "actions": acts[:step], "divergence": d, "raisers": list(raisers)},
+                                  signature="replay:%s:%s" % (d["action"]["name"] if isinstance(d["action"], dict) else d["action"],
+                                                              ",".join(sorted(d["diff"]))))
+    ctx.note("graph_edges", total_edges)
+    ctx.note("graph_edges_replayed", total_covered)
+    ctx.note("exhaustive", total_covered == total_edges)
     ctx.traces_validated += replayed
     ctx.note("behaviours_replayed", replayed)
 
@@ -146,6 +166,7 @@ def run(ctx, pid):
     tconsts = {"MaxId": 3, "InitFree": 1, "Reqs": {1, 2, 3, 4}, "CPReqs": {4}, "MaxPages": 3} if ctx.quick else \
         {"MaxId": 3, "InitFree": 2, "Reqs": {1, 2, 3, 4, 5}, "CPReqs": {2, 4}, "MaxPages": 3}
     tconsts["CloseFailsSessions"] = intended
+    tconsts["Busy"] = True
     n_tr = 300 if ctx.quick else 4000
     traces = [rc.record(tconsts, ctx.rng, max_events=40) for _ in range(n_tr)]
     good = len(traces)
